@@ -750,6 +750,12 @@ func (s *SecureChannel) handleOpenSecureChannelRequest(reqID uint32, svc ua.Requ
 		return ua.StatusBadSecureChannelTokenUnknown
 	}
 
+	if s.cfg.ValidateSecurity != nil {
+		if err := s.cfg.ValidateSecurity(s.cfg.SecurityPolicyURI, req.SecurityMode); err != nil {
+			return err
+		}
+	}
+
 	s.cfg.Lifetime = req.RequestedLifetime
 	s.cfg.SecurityMode = req.SecurityMode
 
